@@ -191,7 +191,7 @@ func (w *World) evalMemcheck(tag string) {
 		return
 	}
 	w.S.Stat("probe.memcheck")
-	if !w.armed("C05", "C09") {
+	if !w.armed("C05", "C09", "C08") {
 		return
 	}
 	if w.lostReplies > 0 {
@@ -626,6 +626,8 @@ func appTypeOf(a *App) string {
 		return "deployment"
 	case "bare":
 		return "NULL"
+	case "foo":
+		return strings.ToLower(a.ownerKind())
 	}
 	return a.Kind
 }
